@@ -13,6 +13,17 @@ CLAIMED = {
  "C02": ("V: the bytes left on the stream by schemaless_writer are matched by TLC against AvroBinary!MatchCanon, an independent byte-level "
          "definition (zig-zag varints on limb integers, IEEE fields from float.hex(), UTF-8 from code points, one counted block + 0).",
          "TLA+ spec (AvroBinary!MatchCanon) + TLC trace validation of logged encoder output", "3/C02"),
+ "C03": ("G: TLC turns seeded (schema, datum, choice stream) cases into specification-valid layouts (AvroLayout!EncodeLayout: any block partition, "
+         "positive or negative-count form), checks partition invariance on the spec for each, and prints bytes, expected value, index positions and "
+         "out-of-range index encodings; these are replayed into schemaless_reader (value returned and skipped, indices patched, every proper prefix).",
+         "TLA+ spec (AvroLayout, AvroBinary!Decode) + TLC-generated cases replayed into the implementation", "3/C03"),
+ "C04": ("V: files written by fastavro.writer under a seeded product of schema kind x records x codec x sync_interval x level x metadata x sync marker x "
+         "raw/parsed x stream kind; TLC judges the records yielded by fastavro.reader against Norm, the reported schema by canonical tree, codec and "
+         "metadata against the arguments and the header found by the spec's own container parser; wrapper streams log the I/O methods used.",
+         "TLA+ spec (AvroFile!ParseFile, AvroCanon, AvroValue!Norm) + TLC trace validation of logged write/read sessions", "3/C04"),
+ "C05": ("V: every file written by fastavro is parsed by AvroFile!ParseFile (magic, metadata map, sync, blocks; payloads inflated by the standard library "
+         "only) and must yield the records; block_reader offsets/sizes/counts must equal the spec parser's and tile the file.",
+         "TLA+ spec (AvroFile!ParseFile, Tiles) + TLC trace validation of logged files and block listings", "3/C05"),
 }
 checks = []
 for p in props:
